@@ -479,7 +479,7 @@ func runC15(c Case) engine.Result {
 }
 
 func init() {
-	common := "programs = all statement/declaration derivations within 2 (quick) / 3 (thorough) deviations + 4 wide programs that force wrapping + every example file; configurations = default, all 23 single deviations from the documented defaults for every program, all pairs (quick) / triples (thorough) for programs within 1 deviation and pairs for example files, plus the all-options corner; comment decorations = every documented placeholder (and every pair; thorough: triple) of every program within 1 deviation x {#, //, /* */} and falco annotation / #FASTLY comments at leading slots, under 10 comment-relevant configurations (single comments and the all-placeholders cases also under 8 more: should_use_unset, else_if, explicit_string_concat=false, align_declaration_property, sort_declaration, break_compound_conditions=false, tabs, line_width=40); an empty line in front of every leading placeholder, and before / after / around a # and a block comment at every placeholder; every placeholder filled at once, with and without empty lines around the own-line comments; 120 wide programs (else-if width sweeps, multi-line long strings, two long strings on one line); placeholders before / after the arguments of a call inside an expression (not documented: left out by C15); distinct = distinct (source, configuration)"
+	common := "programs = all statement/declaration derivations within 2 (quick) / 3 (thorough) deviations + 4 wide programs that force wrapping + every example file; configurations = default, all 23 single deviations from the documented defaults for every program, all pairs (quick) / triples (thorough) for programs within 1 deviation and pairs for example files, plus the all-options corner; comment decorations = every documented placeholder (and every pair; thorough: triple) of every program within 1 deviation x {#, //, /* */} and falco annotation / #FASTLY comments at leading slots, under 10 comment-relevant configurations (single comments and the all-placeholders cases also under 8 more: should_use_unset, else_if, explicit_string_concat=false, align_declaration_property, sort_declaration, break_compound_conditions=false, tabs, line_width=40); an empty line in front of every leading placeholder, and before / after / around a # and a block comment at every placeholder; every placeholder filled at once, with and without empty lines around the own-line comments; 120 wide programs (else-if width sweeps, multi-line long strings, two long strings on one line); placeholders before / after the arguments of a call inside an expression (not documented: left out by C15); the # and // comments carry text that would open a block comment or a long string if it were code; a comment plus, at every later own-line placeholder, a comment separated from its statement by an empty line; distinct = distinct (source, configuration)"
 	engine.Register(engine.Spec[Case]{
 		ID: "C03", Level: "exploration", Gen: Gen, Key: Key, Run: runC03,
 		Rule: common + "; oracle: formatted text parses and its tree equals the original's modulo exactly the documented rewrites of the options that are on; non-trivial = input parses",
